@@ -120,24 +120,24 @@ MIN_COUNTERS = {
                  'outside_partition_frees': 200_000,
                  'object_outside_partition_frees': 10_000,
                  'object_frees_whose_send_fails': 10_000,
-                 'object_failed_ctors': 200_000,
-                 'object_failed_ctors_explicit_number_live': 80_000,
-                 'object_failed_ctors_explicit_number_live_interior': 5000,
-                 'object_failed_ctors_explicit_number_free': 30_000,
-                 'object_failed_ctors_explicit_number_foreign': 20_000,
-                 'object_failed_ctors_automatic_number': 40_000,
-                 'object_failed_ctors_via_new_consecutive': 40_000,
-                 'object_failed_ctors_via_new_cue': 15_000,
-                 'object_failed_ctors_via_new_read': 15_000,
-                 'object_failed_ctors_via_new_read_channel': 15_000,
-                 'object_failed_ctors_via_init_frames_none': 15_000,
-                 'object_failed_deferred_allocs': 40_000,
-                 'object_frees_whose_completion_function_fails': 8000,
-                 'object_group_frees_whose_send_fails': 30_000,
-                 'object_explicit_number_ctors': 80_000,
-                 'object_explicit_number_frees': 20_000,
-                 'object_free_all_calls': 4000,
-                 'object_allocs_after_failed_operation': 400_000,
+                 'object_failed_ctors': 100_000,
+                 'object_failed_ctors_explicit_number_live': 40_000,
+                 'object_failed_ctors_explicit_number_live_interior': 3000,
+                 'object_failed_ctors_explicit_number_free': 15_000,
+                 'object_failed_ctors_explicit_number_foreign': 10_000,
+                 'object_failed_ctors_automatic_number': 20_000,
+                 'object_failed_ctors_via_new_consecutive': 20_000,
+                 'object_failed_ctors_via_new_cue': 8000,
+                 'object_failed_ctors_via_new_read': 8000,
+                 'object_failed_ctors_via_new_read_channel': 8000,
+                 'object_failed_ctors_via_init_frames_none': 8000,
+                 'object_failed_deferred_allocs': 20_000,
+                 'object_frees_whose_completion_function_fails': 4000,
+                 'object_group_frees_whose_send_fails': 15_000,
+                 'object_explicit_number_ctors': 40_000,
+                 'object_explicit_number_frees': 10_000,
+                 'object_free_all_calls': 2000,
+                 'object_allocs_after_failed_operation': 200_000,
                  'model_selftest': 1},
 }
 
